@@ -17,6 +17,7 @@ from glotaran.io import load_parameters
 from glotaran.parameter.parameter import Parameter
 from glotaran.utils.ipython import MarkdownStr
 from glotaran.utils.sanitize import pretty_format_numerical
+from glotaran.utils.sanitize import sanitize_parameter_list
 
 if TYPE_CHECKING:
     from glotaran.parameter.parameter_history import ParameterHistory
@@ -78,7 +79,7 @@ class Parameters:
         for i, item in enumerate(item for item in parameter_list if not isinstance(item, dict)):
             if not isinstance(item, list):
                 item = [item]
-            if not any(isinstance(v, str) for v in item):
+            if not any(isinstance(v, str) for v in sanitize_parameter_list(item.copy())):
                 item += [f"{i+1}"]
             parameter = Parameter.from_list(item, default_options=defaults)
             parameters[parameter.label] = parameter
@@ -484,7 +485,9 @@ def flatten_parameter_dict(
             ):
                 if not isinstance(list_value, list):
                     list_value = [str(index), list_value]
-                elif not any(isinstance(v, str) for v in list_value):
+                elif not any(
+                    isinstance(v, str) for v in sanitize_parameter_list(list_value.copy())
+                ):
                     list_value += [str(index)]
                 yield key, list_value, sub_dict
 
